@@ -81,6 +81,7 @@ pub fn hash_find(x: &mut Exec, op: &Value) -> Value {
     let class = class_of(&op["class"]);
     let es = op["es"].as_str().unwrap();
     let sysv = op["op"] == "sysv_find";
+    let hdr_edit: Vec<Value> = op.get("hdr_edit").and_then(|v| v.as_array()).cloned().unwrap_or_default();
     with_es!(es, e => {
         let (r, a, m) = measured(|| {
             let symtab = SymbolTable::new(e, class, symb);
@@ -93,7 +94,19 @@ pub fn hash_find(x: &mut Exec, op: &Value) -> Value {
             } else {
                 match GnuHashTable::new(e, class, hb) {
                     Err(er) => (Some(er), None, None),
-                    Ok(t) => match t.find(&name, &symtab, &strtab) { Ok(v) => (None, Some(v), None), Err(er) => (None, None, Some(er)) },
+                    Ok(mut t) => {
+                      // `hdr` is a public field: a caller may have written to it before the lookup
+                      for ed in hdr_edit.iter() {
+                          let v = rd_w(&ed[1]) as u32;
+                          match ed[0].as_str().unwrap_or("") {
+                              "nbucket" => t.hdr.nbucket = v,
+                              "table_start_idx" => t.hdr.table_start_idx = v,
+                              "nbloom" => t.hdr.nbloom = v,
+                              "nshift" => t.hdr.nshift = v,
+                              other => panic!("harness: bad hdr field {other}"),
+                          }
+                      }
+                      match t.find(&name, &symtab, &strtab) { Ok(v) => (None, Some(v), None), Err(er) => (None, None, Some(er)) } },
                 }
             }
         });
